@@ -283,16 +283,19 @@ impl Check for SignatureCheck {
     }
 }
 
+pub const E2E: super::e2e::EndToEnd = super::e2e::EndToEnd { part: "end-to-end-binary-vs-handler", methods: &["textDocument/hover", "textDocument/signatureHelp"] };
+
 pub fn checks() -> Vec<Box<dyn Check>> {
-    vec![Box::new(HoverCheck), Box::new(SignatureCheck)]
+    vec![Box::new(HoverCheck), Box::new(SignatureCheck), Box::new(E2E)]
 }
 
 pub fn run(ctx: &Ctx) -> i32 {
-    let parts = vec![
+    let mut parts = vec![
         crate::corpus_part(ctx, &checks()),
         run_pbt(ctx, &HoverCheck, ctx.n(16_000, 250_000)),
         run_pbt(ctx, &SignatureCheck, ctx.n(8_000, 150_000)),
     ];
+    parts.push(run_pbt(ctx, &E2E, ctx.n(400, 8_000)));
     finish(
         ctx,
         parts,
